@@ -74,7 +74,11 @@ def generate(rng, tier):
                     v = rng.choice([0, -1, 7, 2147483647, -2147483648])
                     lines.append(("SL 0 %s %d %d" % (hx(p), v, max(-2147483648, v - 1))) if o.is_list() else ("SI 0 %s 0 %d" % (hx(p), rng.choice([v, 9223372036854775807, -9223372036854775808]))))
                 elif o.ty == "float" and not o.is_list():
-                    lines.append("SF 0 %s 0 %s" % (hx(p), dbits(rng.choice([0.1, -2.5, 1e15, 123456.789, 1e-7, 3.0, 2.0 ** 60, 1e300, 5e-324, -0.0, 1 / 3.0]))))
+                    if rng.random() < 0.04:
+                        # a non-finite value can only come from the API; it has no spelling in a file (K03)
+                        lines.append("SF 0 %s 0 %s" % (hx(p), rng.choice(["7ff0000000000000", "fff0000000000000", "7ff8000000000000"])))
+                    else:
+                        lines.append("SF 0 %s 0 %s" % (hx(p), dbits(rng.choice([0.1, -2.5, 1e15, 123456.789, 1e-7, 3.0, 2.0 ** 60, 1e300, 5e-324, -0.0, 1 / 3.0]))))
                 elif o.ty == "bool" and not o.is_list():
                     lines.append("SB 0 %s 0 %d" % (hx(p), rng.randint(0, 1)))
                 elif o.ty == "sec" and (o.flags & MULTI) and (o.flags & TITLE):
@@ -82,7 +86,7 @@ def generate(rng, tier):
             if ctxflags & COMMENTS and rng.random() < 0.5 and allo:
                 p, o = rng.choice(allo)
                 if "|" not in p and o.ty != "sec":
-                    lines.append("SC 0 %s %s" % (hx(p), hx(rng.choice([b"note", b"two words", b"a\nb", b"*", b"x / y"]))))
+                    lines.append("SC 0 %s %s" % (hx(p), hx(rng.choice([b"note", b"two words", b"a\nb", b"*", b"x / y", b"p */ t", b"#x */ y = 1", b"a\n*/ b", b"ends *"]))))
             lines += ["D 0", "PR 0", "X 1 %d" % ctxflags, "PP 0 1", "D 1", "PR 1", "X 2 %d" % ctxflags, "PP 1 2", "PR 2"]
             cases.append(Case("r%d" % n, lines, {"ctxflags": ctxflags, "null_over_default": nulls}))
             n += 1
@@ -179,7 +183,27 @@ def recog_null_over_default(case, il, ml):
     return bool(diff) and all(d in nulled for d in diff)
 
 
-RECOGNIZERS = {"null_over_default": recog_null_over_default}
+def recog_nonfinite_float(case, il, ml):
+    """the case stores inf / nan in a float option through the API, the printed text spells it inf / nan, and the
+    re-parse of that text stops at exactly that spelling: its first diagnostic is 'invalid floating point value'"""
+    nonfinite = False
+    for l in case.lines:
+        w = l.split()
+        if w[0] == "SF" and len(w) == 5 and len(w[4]) == 16 and (int(w[4], 16) >> 52) & 0x7ff == 0x7ff:
+            nonfinite = True
+    if not nonfinite:
+        return False
+    bs = [i for i, l in enumerate(il) if l.startswith("B ")]
+    if not bs or il[bs[0]] in ("B .", "B -"):
+        return False
+    t = unhx(il[bs[0]][2:])
+    if not any(x in t for x in (b"=inf\n", b"=-inf\n", b"=nan\n", b"=-nan\n")):
+        return False
+    gs = [l for l in il[bs[0]:] if l.startswith("G ")]
+    return bool(gs) and gs[0].split()[-1] == "invalidFloat"
+
+
+RECOGNIZERS = {"null_over_default": recog_null_over_default, "nonfinite_float": recog_nonfinite_float}
 
 
 def nontrivial(case, model_lines):
